@@ -169,3 +169,88 @@ Theorem C07_query_sound :
     end.
 Proof. exact query_sound. Qed.
 Print Assumptions C07_query_sound.
+
+(* Indexing, iteration and np.array() of a mapped feature (scalar, image,
+   ragged contour with the fixed __array__) all show origin[basinmap], in
+   every reachable cache state. *)
+Theorem C07_proxy_access_agree :
+  forall (A : Type) (feat : list A) (bmap : list Z) (is_scalar : bool)
+         (mapped : list A),
+    gather feat bmap = Some mapped ->
+    forall (cache : option (list A)) (ac : access),
+      (cache = None \/ (is_scalar = true /\ cache = Some mapped)) ->
+      snd (proxy_access A feat bmap is_scalar cache ac)
+      = direct_access mapped ac /\
+      (fst (proxy_access A feat bmap is_scalar cache ac) = None \/
+       (is_scalar = true /\
+        fst (proxy_access A feat bmap is_scalar cache ac) = Some mapped)).
+Proof. exact @proxy_access_agree. Qed.
+Print Assumptions C07_proxy_access_agree.
+
+(* The whole export step (Export.hdf5 with basins=True, filtered=True, from a
+   file or from a hierarchy child of any depth, any feature list): in a
+   consistent store whose basins refer to files of the store, the exported
+   file is consistent for the filtered origin events of its source: its
+   stored features are the origin's, and every basin definition written
+   refers to a basinmap feature that holds exactly the composed map. *)
+Theorem C07_export_file_sound :
+  forall (truth : Z -> list Z) (omap : nat -> list Z) (st : store)
+         (src : nat) (root : file) (pfilts : list (list bool))
+         (filt : list bool) (feats : option (list Z)) (fl' : file)
+         (cv : list Z),
+    store_sound truth omap st ->
+    scoped st ->
+    get_file st src = Some root ->
+    length (f_slots root) = 10%nat ->
+    match pfilts with
+    | [] => f_n root = zlen (omap src) /\ cv = omap src
+    | _ => exists idx, child2root pfilts = Some idx /\
+                       gather (omap src) idx = Some cv
+    end ->
+    export st src pfilts filt feats = Some fl' ->
+    file_sound truth (omap_ext omap (length st) (mask filt cv))
+               (st ++ [Some fl']) (length st) fl' /\
+    f_n fl' = count_true filt /\ length (f_slots fl') = 10%nat /\
+    zlen cv = zlen filt /\
+    (forall b, In b (f_basins fl') -> (b_target b < length st)%nat).
+Proof. exact export_sound. Qed.
+Print Assumptions C07_export_file_sound.
+
+(* ... hence export maps a consistent store to a consistent store (the
+   inductive step for pipelines of any length and shape). *)
+Theorem C07_export_store_sound :
+  forall (truth : Z -> list Z) (omap : nat -> list Z) (st : store)
+         (src : nat) (root : file) (pfilts : list (list bool))
+         (filt : list bool) (feats : option (list Z)) (fl' : file)
+         (cv : list Z),
+    store_sound truth omap st ->
+    scoped st ->
+    get_file st src = Some root ->
+    length (f_slots root) = 10%nat ->
+    match pfilts with
+    | [] => f_n root = zlen (omap src) /\ cv = omap src
+    | _ => exists idx, child2root pfilts = Some idx /\
+                       gather (omap src) idx = Some cv
+    end ->
+    export st src pfilts filt feats = Some fl' ->
+    store_sound truth (omap_ext omap (length st) (mask filt cv))
+                (st ++ [Some fl']) /\
+    scoped (st ++ [Some fl']).
+Proof. exact export_store_sound. Qed.
+Print Assumptions C07_export_store_sound.
+
+(* A copy of a file (compress, repack, rtdc_copy with a feature selection;
+   basin_definition_copy rewrites internal basins to the copied features)
+   answers the lookup of every feature that is still present exactly like
+   the original: same data, same basin, same map. *)
+Theorem C07_copy_keeps_lookup :
+  forall (st : store) (fid : nat) (fl : file) (keep : list Z),
+    scoped_all st ->
+    get_file st fid = Some fl ->
+    (forall b, In b (f_basins fl) -> b_internal b = true ->
+               b_feats b <> None) ->
+    forall (fu : nat) (f : Z), zmem f keep = true ->
+      lookup fu (st ++ [Some (copy_file fl keep)]) (length st) f
+      = lookup fu st fid f.
+Proof. exact copy_keeps_lookup. Qed.
+Print Assumptions C07_copy_keeps_lookup.
